@@ -50,6 +50,58 @@ theorem copy_mid_scenario (m : Mach U) (before after : List Api.Op) :
 theorem run_composes (m : Mach U) (a b : List Api.Op) : Api.run m (a ++ b) = Api.run (Api.run m a) b :=
   Api.run_append m a b
 
+/-! ### "whatever other instances do": any interleaving with the operations of other instances -/
+
+/-- one step of a process holding several instances: operation `o` on instance `k` -/
+def stepMany (ms : List (Mach U)) (x : Nat × Api.Op) : List (Mach U) :=
+  ms.modify x.1 (fun m => Api.step m x.2)
+
+/-- the operations addressed to instance `k`, in order -/
+def opsOf (k : Nat) (l : List (Nat × Api.Op)) : List Api.Op :=
+  (l.filter (fun x => x.1 == k)).map Prod.snd
+
+theorem stepMany_length (ms : List (Mach U)) (x : Nat × Api.Op) : (stepMany ms x).length = ms.length := by
+  simp [stepMany]
+
+theorem stepMany_get (ms : List (Mach U)) (x : Nat × Api.Op) (k : Nat) :
+    (stepMany ms x)[k]? = if x.1 = k then ms[k]?.map (fun m => Api.step m x.2) else ms[k]? := by
+  unfold stepMany
+  rw [List.getElem?_modify]
+  by_cases h : x.1 = k
+  · simp [h]
+  · simp [h]
+
+/-- Instances of one process, driven in ANY interleaving (operation granularity), each end up exactly where they
+would have ended up alone: instance `k` sees only the operations addressed to it. -/
+theorem interleaving_independent (l : List (Nat × Api.Op)) : ∀ (ms : List (Mach U)) (k : Nat),
+    (l.foldl stepMany ms)[k]? = ms[k]?.map (fun m => Api.run m (opsOf k l)) := by
+  induction l with
+  | nil => intro ms k; simp [opsOf, Api.run_nil]
+  | cons x r ih =>
+    intro ms k
+    rw [List.foldl_cons, ih, stepMany_get]
+    by_cases h : x.1 = k
+    · have hb : (x.1 == k) = true := by simp [h]
+      simp only [h, if_true, opsOf, List.filter_cons, hb]
+      cases ms[k]? with
+      | none => rfl
+      | some m => simp [Api.run_cons, h]
+    · have hb : (x.1 == k) = false := by simp [h]
+      simp only [h, if_false, opsOf, List.filter_cons, hb]
+      rfl
+
+/-- … in particular two interleavings that agree on the operations of instance `k` leave it in the same state. -/
+theorem other_instances_irrelevant (l₁ l₂ : List (Nat × Api.Op)) (ms₁ ms₂ : List (Mach U)) (k : Nat)
+    (hm : ms₁[k]? = ms₂[k]?) (ho : opsOf k l₁ = opsOf k l₂) :
+    (l₁.foldl stepMany ms₁)[k]? = (l₂.foldl stepMany ms₂)[k]? := by
+  rw [interleaving_independent, interleaving_independent, hm, ho]
+
+-- non-vacuity: two demonstration instances, the second driven between the first one's operations
+example : ((([(0, Api.Op.update), (1, .update), (1, .react), (0, .update)] : List (Nat × Api.Op)).foldl stepMany
+      [Demo.mach, Demo.mach])[0]?).map (fun m => m.w.trace.length) =
+    some (Api.run Demo.mach [.update, .update]).w.trace.length := by
+  decide +kernel
+
 -- the statements are about something: the demonstration machine does run
 example : (Api.run Demo.mach Demo.prog).w.trace.length = 72 := by decide +kernel
 
@@ -57,5 +109,6 @@ end Hfsm.Props.C10
 
 /-
 Property theorems (for Props/INDEX.json):
-  behaviour_is_a_function, copy_continues, copy_mid_scenario, run_composes
+  behaviour_is_a_function, copy_continues, copy_mid_scenario, run_composes,
+  interleaving_independent, other_instances_irrelevant (stepMany_length, stepMany_get: helpers)
 -/
